@@ -136,6 +136,28 @@ def nontrivial(ops):
 
 def run(ctx, deep, model_ok):
     GC.run_histories(ctx, 'C09', deep, model_ok, 30, 300, step_oracle, nontrivial, gen_ops=gen_ops)
+    # unused_name() asked ONCE, after a history that was not interrupted by queries (asking moves the counter it is drawn
+    # from, so the per-step query above never sees the counter as the history alone leaves it): every prefix of the
+    # hand-made histories and of some generated ones is replayed on a fresh Gfa and asked at its end
+    g = impl.gfapy()
+    hs = [(h[0], h[1], h[2] if len(h) > 2 else 1) for h in GC.CORPUS]
+    for i in range(40 if deep else 10):
+        ver = 'gfa1' if i % 2 else 'gfa2'
+        hs.append((ver, gen_ops(ctx.rng, ver), 1))
+    for ver, ops, vl in hs:
+        for k in range(1, len(ops) + 1):
+            if ops[k - 1][0] == 'add':
+                continue                       # the counter can fall behind only when a line goes or changes its identifier
+            G = g.Gfa(version=ver, vlevel=vl)
+            for op in ops[:k]:
+                GL.apply_op(G, op)
+            u = impl.outcome(lambda: G.unused_name())
+            case = {'kind': 'history', 'version': ver, 'vlevel': vl, 'ops': [list(o) for o in ops[:k]]}
+            ctx.count(case, True)
+            if u[0] == 'ok' and (u[1] in G.names or G.line(u[1]) is not None):
+                ctx.violation('failing-input', 'unused_name() asked once after the history returned an identifier that is in use',
+                              case, 'an identifier nothing carries', u[1], python=GC.py_of(case) + "\nprint(g.unused_name(), g.names)")
+                break
     # unused_name() is fresh
     g = impl.gfapy()
     G = g.Gfa(['S\t7\t*', 'S\t12\t*', 'S\tA\t*'])
